@@ -82,14 +82,14 @@ theorem gcdVartimeWith_spec (og ogv : Nat → Nat → Nat) (w a b : Nat) (H : Od
 
 /-! ### `inv_mod`: modulus zero, boxed form, signed wrappers -/
 
-/-- DESIGN §7 row 8, proved of the model: `Uint::inv_mod(a, 0)` panics for every `a`. -/
-theorem invModWith_zero_modulus (inv : Nat → Nat → Option Nat) (w a : Nat) (hw : 0 < w) :
-    (match invModWith inv w a 0 with | R.panic => True | _ => False) := by
+/-- DESIGN §7 row 8 after /repo be88d84, proved of the model: `Uint::inv_mod(a, 0)` is `none` for every
+    `a` (it used to panic at `expect("inverse mod 2^k exists")`). -/
+theorem invModWith_zero_modulus (inv : Nat → Nat → Option Nat) (w a : Nat) :
+    (match invModWith inv w a 0 with | R.none => True | _ => False) := by
   unfold invModWith
   have h1 : tz w 0 = w := tzNat_zero w
-  have h2 : (invMod2k w 0 w).2 = false := by
-    rw [invMod2k_snd]; simp; omega
-  simp only [h1, Nat.lt_irrefl, if_false, h2, Bool.not_false, if_true]
+  simp only [h1, Nat.lt_irrefl, if_false, Nat.zero_mod, show ¬ (0 = 1) by omega, decide_false,
+    Bool.and_false, Bool.false_and, Bool.false_eq_true]
 
 /-- `BoxedUint::inv_mod(a, 0)` is `none`. -/
 theorem invModBoxedWith_zero_modulus (inv : Nat → Nat → Option Nat) (w a : Nat) :
@@ -102,7 +102,7 @@ theorem invModBoxedWith_zero_modulus (inv : Nat → Nat → Option Nat) (w a : N
 theorem invModBoxedWith_spec (inv : Nat → Nat → Option Nat) (w a m : Nat) (H : OddInvSpec inv w)
     (ha : a < 2 ^ w) (hm0 : 0 < m) (hm : m < 2 ^ w) :
     match invModBoxedWith inv w a m with
-    | R.some x => Nat.gcd a m = 1 ∧ x < m ∧ a * x ≡ 1 [MOD m]
+    | R.some x => Nat.gcd a m = 1 ∧ (x < m ∨ (m = 1 ∧ x = 1)) ∧ a * x ≡ 1 [MOD m]
     | R.none => Nat.gcd a m ≠ 1
     | R.panic => False := by
   obtain ⟨hk, hmul, hsodd⟩ := tzNat_spec w m hm0 hm
